@@ -57,7 +57,9 @@ class Driver:
 
     # -- concretisation ----------------------------------------------------
     def names(self, sel):
-        return [self.perm[t] for t in sel]
+        from .sandbox import pattern_for
+
+        return [pattern_for(self.perm[t], (self.variant + k + len(self.events)) % 6) for k, t in enumerate(sel)]
 
     def text(self, t, v):
         if self.backend == "local":
@@ -161,6 +163,10 @@ class Driver:
             elif j["st"] == "PD" and st in ("FAILED", "CANCELLED", "KILLED"):
                 j["st"] = "FAIL" if st in ("FAILED", "KILLED") else "CA"
                 self.events.append({"act": "JobInherit", "t": j["tgt"], "j": j["id"], "st": j["st"]})
+            elif j["st"] == "R" and st in ("FAILED", "CANCELLED", "KILLED", "COMPLETED"):
+                # the driver neither released nor cancelled this job, yet it is over
+                j["st"] = "CA" if st == "CANCELLED" else "FAIL"
+                self.events.append({"act": "JobVanished", "t": j["tgt"], "j": j["id"], "st": st})
 
     def after(self):
         sb = self.sb
@@ -309,7 +315,9 @@ class Driver:
                 continue
             jid = self.norm_id(c["res"])
             hold = [self.norm_id(x) if not str(x).startswith("?") else -7 for x in p["deps"]]
-            self.jobs.append({"id": jid, "tgt": t, "st": "PD", "hold": [x for x in hold if x > 0], "gone": False})
+            # (ids gwf made up - beyond what the scheduler handed out - are reported by the hold clause; the
+            # simulated scheduler only honours holds on jobs it knows)
+            self.jobs.append({"id": jid, "tgt": t, "st": "PD", "hold": [x for x in hold if 0 < x <= len(self.jobs)], "gone": False})
             self.events.append({"act": "RunSubmit", "t": t, "id": jid, "hold": hold, "kind": p["kind"], "bad": p["bad"]})
         killed = faults and faults[0][2] == "killparent" and rejected is not None
         if killenv and obs["exit"] == 137:
@@ -322,6 +330,10 @@ class Driver:
             obs.update(act="RunEnd")
         self.events.append(obs)
         self.render()
+        trouble = any(e.get("act") == "Cancel" and e.get("reqs") or (e.get("act") == "JobEnd" and not e.get("ok")) for e in self.events)
+        if obs["act"] == "RunEnd" and ((self.scn.get("drain") and trouble) or self.rng.random() < 0.25):
+            self.adversarial_drain()   # (with "drain": every recovery run after a failure or cancellation)
+            self.step_status({"sel": []})   # look at the result at once (a status query is always legal)
 
     def step_run_local(self, h):
         self.local_sync()
@@ -508,6 +520,10 @@ class Driver:
         obs.update(act="Cancel", sel=h["sel"], refused=refused, reqs=reqs, reported=reported, declined=declined)
         self.events.append(obs)
         if self.backend == "local":
+            if reqs:
+                import time
+
+                time.sleep(1.3)   # a task that is being killed changes state only after the pool's grace second
             self.local_sync()
         self.render()
 
@@ -537,6 +553,21 @@ class Driver:
         mine = [j for j in self.jobs if j["tgt"] == t]
         return mine[k - 1] if len(mine) >= k else None
 
+    def make_output(self, f, when, jid):
+        """A job writes its declared output - for a share of the jobs as a symbolic link to a data
+        file that is not part of the workflow (a legal way to produce an output)."""
+        sb = self.sb
+        p = sb.path(f)
+        if (self.variant + jid) % 4 == 0 and not os.path.islink(p):
+            blob = "blob_%s_%d.dat" % (f, jid)
+            sb.write(blob, "data behind %s\n" % f)
+            if os.path.lexists(p):
+                os.remove(p)
+            os.symlink(blob, p)
+            os.utime(p, (BASE_TIME + when, BASE_TIME + when))     # follows the link: the data file's time
+        else:
+            sb.set_file(f, when, content="made by job %d\n" % jid)
+
     def live_job_of(self, t, states):
         for j in reversed(self.jobs):
             if j["tgt"] == t and j["st"] in states:
@@ -559,13 +590,41 @@ class Driver:
                 ins = [x for x in (self.after()[0]["fs"][f] for f in self.w["in"][h["t"]]) if x >= 0]
                 when = max(ins) if ins else when
             for f in self.w["out"][h["t"]]:
-                self.sb.set_file(f, when, content="made by job %d\n" % j["id"])
+                self.make_output(f, when, j["id"])
         self.pool.release(self.perm[h["t"]], 0 if h["ok"] else 1)
         raw = j["raw"]
         self.pool.settle(want=lambda st: st.get(raw) in ("COMPLETED", "FAILED", "CANCELLED", "KILLED"))
         j["st"] = "OK" if h["ok"] else "FAIL"
         self.events.append({"act": "JobEnd", "t": h["t"], "j": j["id"], "ok": h["ok"], "tie": bool(h.get("tie"))})
         self.local_sync()
+
+    def startable(self, j):
+        afterok = self.backend != "sge"
+        for k in j["hold"]:
+            st = self.job(k)["st"] if 1 <= k <= len(self.jobs) else "OK"
+            if st in ("PD", "R") or (afterok and st != "OK"):
+                return False
+        return True
+
+    def adversarial_drain(self):
+        """A legal but unfriendly scheduler: among the jobs the holds it was really given allow to start,
+        it always runs the most recently submitted one to its (successful) end first.  With correct holds
+        this is an ordinary drain; with a missing hold a dependent finishes before its prerequisite."""
+        while True:
+            cand = [j for j in self.jobs if j["st"] == "PD" and not j["gone"] and self.startable(j)]
+            running = [j for j in self.jobs if j["st"] == "R" and not j["gone"]]
+            if not cand and not running:
+                break
+            j = max(cand, key=lambda x: x["id"]) if cand else max(running, key=lambda x: x["id"])
+            if j["st"] == "PD":
+                j["st"] = "R"
+                self.events.append({"act": "JobStart", "t": j["tgt"], "j": j["id"]})
+            j["st"] = "OK"
+            self.clock += 1
+            for f in self.w["out"][j["tgt"]]:
+                self.make_output(f, self.clock, j["id"])
+            self.events.append({"act": "JobEnd", "t": j["tgt"], "j": j["id"], "ok": True, "tie": False})
+        self.render()
 
     def step_sched(self, h):
         if self.backend == "local":
@@ -583,6 +642,8 @@ class Driver:
                 if st in ("PD", "R") or (afterok and st != "OK"):
                     j = None
                     break
+        if j is None:
+            return   # not applicable to the real job table (already done by the adversarial drain, or diverged): no event
         ev = dict(h)
         ev.setdefault("tie", False)
         ev["j"] = j["id"] if j else 0
@@ -600,7 +661,7 @@ class Driver:
                         if ins:
                             when = max(ins)
                     for f in self.w["out"][h["t"]]:
-                        self.sb.set_file(f, when, content="made by job %d\n" % j["id"])
+                        self.make_output(f, when, j["id"])
             else:
                 j["gone"] = True
         self.events.append(ev)
